@@ -94,6 +94,12 @@ func opNew(w *World, st *Step) execResult {
 	case "F":
 		opts = append(opts, tensor.WithBacking(b.Interface()), tensor.AsFortran(nil))
 		w.backs = append(w.backs, b)
+	case "Cpre": // the backing before the shape
+		opts = []tensor.ConsOpt{tensor.WithBacking(b.Interface()), tensor.WithShape(shape...)}
+		w.backs = append(w.backs, b)
+	case "Fpre": // the column-major declaration before the shape and the backing
+		opts = []tensor.ConsOpt{tensor.AsFortran(nil), tensor.WithShape(shape...), tensor.WithBacking(b.Interface())}
+		w.backs = append(w.backs, b)
 	case "Fconv":
 		opts = append(opts, tensor.AsFortran(b.Interface()))
 		w.backs = append(w.backs, reflect.Value{})
